@@ -1,4 +1,5 @@
 """C14 - statements assemble independently of their neighbours."""
+import itertools
 import ast as A
 import lib
 import gen_instr as G
@@ -61,7 +62,6 @@ def run(v, tier, rng):
                 for v in (5, 1000 if rg in (acc, r) else 100, -128, 127):
                     alu.append(("mn", op, [G.reg(rg), G.imm(v)]))
         return mv, alu
-    import itertools
     for mode in (16, 32):
         mv, alu = pool(mode)
         for fam, kind in ((mv, "mov-pair"), (alu, "alu-pair")):
@@ -70,6 +70,42 @@ def run(v, tier, rng):
                 prs = prs[::3]
             for a, b in prs:
                 groups.append((mode, [[a], [b]], kind))
+    # immediate-class pairs, every case in a driver process of its own: a statement must not change how a LATER statement
+    # of the same mnemonic is encoded, and the reference outputs of A and B alone must not share process state with A;B
+    fresh_groups = []
+    for mode in (16, 32):
+        rw = ("CX", "DX") if mode == 16 else ("ECX", "EDX")
+        big = 30000 if mode == 16 else 100000
+        for op in ("IMUL", "ADD", "CMP", "MOV", "PUSH"):
+            sts = [("mn", "PUSH", [G.imm(x)]) for x in (4, -128, 1000, big)] if op == "PUSH" else \
+                  [("mn", op, [G.reg(r), G.imm(x)]) for r in rw for x in (4, -128, 1000, big)]
+            prs = list(itertools.permutations(sts, 2))
+            if tier == "quick":
+                prs = prs[::2]
+            for a, b in prs:
+                fresh_groups.append((mode, [[a], [b]], "imm-pair, fresh processes"))
+    fcases, fseen = [], {}
+    for gi, (mode, seqs, kind) in enumerate(fresh_groups):
+        for q in [[s for q in seqs for s in q]] + seqs:
+            src = A.p_program(head(mode) + q)
+            if src not in fseen:
+                fseen[src] = "f%d" % len(fseen)
+                fcases.append({"id": fseen[src], "srcs": [src]})
+    fres = lib.run_cases(fcases, "c14f", fresh=True)
+    fnontriv = 0
+    for mode, seqs, kind in fresh_groups:
+        srcs = [A.p_program(head(mode) + [s for q in seqs for s in q])] + [A.p_program(head(mode) + q) for q in seqs]
+        rs = [fres[fseen[x]] for x in srcs]
+        if any(not r.get("calls") or r["calls"][0].get("panic") for r in rs):
+            continue
+        cs = [r["calls"][0] for r in rs]
+        if any(c["diag"] for c in cs):
+            continue
+        fnontriv += 1
+        if cs[0]["out"] != "".join(c["out"] for c in cs[1:]):
+            v.violation("output of A;B differs from output(A) ++ output(B) [%s, BITS %d]" % (kind, mode),
+                        {"source": srcs[0], "out_whole": cs[0]["out"], "out_parts": [c["out"] for c in cs[1:]], "parts": srcs[1:],
+                         "note": "each of the three programs was assembled by a separate process"})
     cases = []
     for gi, (mode, seqs, kind) in enumerate(groups):
         whole = [s for q in seqs for s in q]
@@ -105,6 +141,6 @@ def run(v, tier, rng):
     if bad and not v.violations:
         for k in bad[:3]:
             v.tie_broken("correspondence model vs gosk (label-free sequences)", {"source": cases[0]["srcs"][0], "index": k})
-    v.cov.update({"evaluations": len(cases), "distinct_nontrivial": nontriv,
+    v.cov.update({"evaluations": len(cases) + len(fcases), "distinct_nontrivial": nontriv,
                   "rule": "label-free position-independent sequences (safe instruction forms, DB/DW/DD, RESB; no $, ALIGNB, jumps) in both modes: random pairs/triples, every statement of longer programs alone vs in context, pairs of skeleton forms; non-trivial = groups whose concatenated output is non-empty and undiagnosed",
-                  "samples": [cases[0]["srcs"][0], cases[1]["srcs"][0]], "groups": len(groups), "correspondence_mismatches": len(bad)})
+                  "samples": [cases[0]["srcs"][0], cases[1]["srcs"][0]], "groups": len(groups), "fresh_process_groups": len(fresh_groups), "fresh_nontrivial": fnontriv, "correspondence_mismatches": len(bad)})
